@@ -83,5 +83,7 @@ def run(ctx):
                     ctx.sample({"program": res["text"], "calls": str(r["calls"])[:500], "result": " ".join(u)})
     done = j.run() if ok_sem else False
     ctx.cov["runs"] = stats
+    import engine_tie
+    engine_tie.engine_tie(ctx, [], "C07", nprog=0, nhist=4 if quick else None, nmerge=6 if quick else None)
     ctx.obligation("oracle:close_until contract, soundness of the stop state, resumption", done and not ctx.violations,
                    "%d close_until runs" % stats["cu_runs"])
